@@ -310,3 +310,25 @@ def negation(f):
     if f[0] == "err":
         return ("ok", f[1])
     return ("none",)
+
+
+def decision_paths(fn, G, start, targets, max_paths=200):
+    """acyclic paths start -> each target; returns {target: [frozenset(edge facts along the path), ...]}"""
+    targets = set(targets)
+    out = {t: [] for t in targets}
+    count = [0]
+
+    def rec(b, facts, seen):
+        if count[0] > max_paths:
+            return
+        if b in targets:
+            out[b].append(frozenset(facts))
+            count[0] += 1
+            return
+        for s in fn.succs(b):
+            if s in seen:
+                continue
+            ef = G.edge_facts.get((b, s), set())
+            rec(s, facts | {f for f in ef if f[0] != "hist"}, seen | {s})
+    rec(start, frozenset(), {start})
+    return out
